@@ -355,6 +355,7 @@ func runC03(e *Engine, r *Report) {
 	ruleReplaySetsState(e, r)
 	ruleNotifyApplied(e, r)
 	ruleResponseTypes(e, r, "RequestVoteResp")
+	ruleMessageAddressed(e, r)
 	ruleTanStateCache(e, r)
 }
 
